@@ -63,6 +63,9 @@ type World struct {
 	Facts          map[string]int
 	CloseSyncs     int // replica-set syncs requested less than reconcileFrequency after the previous one
 	lastSyncAt     map[string]time.Time
+	Det            bool // deterministic fair rounds (no draws)
+	detRound       int
+	OnViolation    func(vs []mon.V) // if set, violations are handed over instead of failing the rapid case
 }
 
 func newWorld(rt *rapid.T, rec *evid.Rec, cfg WorldCfg) *World {
@@ -177,6 +180,10 @@ func renderStrategy(s *edsv1.ExtendedDaemonSetSpecStrategy) string {
 
 // fail records the violations and stops the case unless all of them are listed known findings.
 func (w *World) fail(vs []mon.V) {
+	if w.OnViolation != nil {
+		w.OnViolation(vs)
+		return
+	}
 	settle(w.rt, w.rec, vs, map[string]interface{}{"trace": append([]string(nil), w.C.Trace...)}, len(w.C.Trace), "--- trace ---\n"+strings.Join(w.C.Trace, "\n"))
 }
 
@@ -266,7 +273,17 @@ func (w *World) fairRound(label string) (creates, deletes int) {
 	for _, s := range w.C.AllSettings() {
 		jobs = append(jobs, job{sim.ActorSetting, s.Namespace, s.Name})
 	}
-	perm := rapid.Permutation(jobs).Draw(w.rt, "roundOrder")
+	perm := jobs
+	if w.Det {
+		// deterministic mode (replayable scripts): rotate the sorted job list by the round number
+		w.detRound++
+		if len(jobs) > 0 {
+			k := w.detRound % len(jobs)
+			perm = append(append([]job{}, jobs[k:]...), jobs[:k]...)
+		}
+	} else {
+		perm = rapid.Permutation(jobs).Draw(w.rt, "roundOrder")
+	}
 	for _, j := range perm {
 		r := w.reconcile(j.actor, j.ns, j.name)
 		for _, c := range r.Calls {
